@@ -124,3 +124,58 @@ def parse_log(path):
                           or 'std::bad_alloc' in l][:10]
     res['no_harness'] = 'No proof harnesses' in txt or 'no harnesses matched' in txt.lower()
     return res
+
+
+LOOP_RE = re.compile(r'Loop (\S+):\n\s+file (\S+) line (\d+)')
+
+
+def codegen_only(name, slot_dir, log_path):
+    cmd = ['cargo', 'kani', '--lib', '-Z', 'stubbing', '-Z', 'unstable-options', '--only-codegen', '--target-dir', slot_dir,
+           '--exact', '--harness', 'registry::' + name]
+    with open(log_path, 'w') as lf:
+        r = subprocess.run(cmd, cwd=HARNESS_DIR, env=env(), stdout=lf, stderr=subprocess.STDOUT)
+    return r.returncode == 0
+
+
+def find_goto(name, slot_dir):
+    import glob
+    pat = os.path.join(slot_dir, 'kani', '*', 'debug', 'build', 'hx', '*', 'out', '*registry%d%s.out' % (len(name), name))
+    c = sorted(glob.glob(pat), key=os.path.getmtime)
+    return c[-1] if c else None
+
+
+def compute_unwindset(name, slot_dir, k, log_path):
+    """per-loop bounds for the data-dependent generator loops, derived from the goto binary of THIS build.
+    Loops that are not recognised keep the harness default (and its unwinding assertion)."""
+    if not codegen_only(name, slot_dir, log_path):
+        return None, 'codegen failed'
+    out = find_goto(name, slot_dir)
+    if not out:
+        return None, 'goto binary not found'
+    txt = subprocess.run(['cbmc', '--show-loops', out], capture_output=True, text=True).stdout
+    us, notes = [], []
+    for m in LOOP_RE.finditer(txt):
+        lid, f, line = m.group(1), m.group(2), int(m.group(3))
+        path = f if os.path.isabs(f) else os.path.normpath(os.path.join(HARNESS_DIR, f))
+        try:
+            src = open(path).read().split('\n')[line - 1]
+        except Exception:
+            src = ''
+        n = None
+        if 'MoveGenImpl' in lid or 'movegen' in lid and ('san_candidates' in lid or 'san_pawn_capture' in lid):
+            if 'for src in' in src:
+                n = k + 2
+            elif 'do_gen_brq' in lid:
+                n = 29
+            elif 'do_gen_kn' in lid:
+                n = 10
+            else:
+                n = k + 2
+        elif 'DefaultPrechecker' in lid and 'pinned' in lid:
+            n = 6
+        elif 'retain' in lid or 'ArrayVec' in lid and 'drop' not in lid:
+            n = 48 * k + 60
+        if n is not None:
+            us.append('%s:%d' % (lid, n))
+            notes.append('%s:%d (%s:%d %s)' % (lid[-40:], n, os.path.basename(f), line, src.strip()[:50]))
+    return ','.join(us), notes
